@@ -47,6 +47,10 @@ def run(db, rep, tier):
     r3(db, rep)
     r4(db, rep)
     r5(db, rep)
+    rep.rule("R9-no-stale-element", "a member of the reassembler that points at an element of its stream table (a cached `IPv4Stream*` / "
+                                    "iterator) is reset wherever an element is erased or the table is cleared (none exists on the pinned "
+                                    "tree; the rule arms itself when one is added)", 0)
+    r9_stale(db, rep)
     rep.explanation = ("Decides the structural clauses of C08 (no datagram from an incomplete set; what the reassembled "
                        "packet is made of; unfragmented packets untouched; key coverage; accounting pairing) by guard "
                        "dominance / must-pass-through rules and one truth table compared with the property text. "
@@ -487,6 +491,41 @@ def r6(db, rep):
             rep.ok("R6-always-a-payload", key, facts.loc(af, r), "non-null on every path (RawPDU fallback)")
     if n < 1:
         rep.analysis_broken("allocate_pdu: no return after the contiguity loop found")
+
+
+def r9_stale(db, rep):
+    REC = "Tins::IPv4Reassembler"
+    r = db.records.get(REC)
+    if not r:
+        rep.analysis_broken("IPv4Reassembler vanished")
+        return
+    cached = []
+    for fl in r.get("fields", []):
+        t = facts.tyi(r, fl.get("t")) or {}
+        s_ = t.get("s") or ""
+        if (t.get("k") == "ptr" and "IPv4Stream" in s_) or "_Rb_tree_iterator" in s_ or ("iterator" in s_ and "IPv4Stream" in s_):
+            cached.append(fl["name"])
+    for F in cached:
+        for f in sorted(db.functions.values(), key=lambda x: x["id"]):
+            if f.get("rec") != REC or not f.get("body") or f.get("kind") in ("ctor", "dtor"):
+                continue
+            g = None
+            for x in facts.fn_nodes(f):
+                if x["k"] == "CXXMemberCallExpr" and x.get("cname") in ("erase", "clear") and "streams_" in facts.expr_str(x["c"][0]):
+                    g = g or cfg.FnCFG(f)
+                    resets = [n for n in facts.fn_nodes(f) if n["k"] == "BinaryOperator" and n.get("op") == "=" and
+                              facts.strip_all(n["c"][0]).get("member") == F and
+                              (facts.cval(n["c"][1]) == 0 or facts.strip_all(n["c"][1])["k"] in ("CXXNullPtrLiteralExpr", "GNUNullExpr"))]
+                    key = "%s:%s@%s" % (f["qual"].split("::")[-1], F, x.get("cname"))
+                    px = g.pos(x)
+                    ok = any(g.before_on_all_paths(g.pos(n), px) for n in resets if g.pos(n)) or \
+                        (resets and g.reaches_exit_avoiding(px, [g.pos(n) for n in resets if g.pos(n)], normal_only=True) is None)
+                    if ok:
+                        rep.ok("R9-no-stale-element", key, facts.loc(f, x), "`%s` is reset around this %s" % (F, x["cname"]))
+                    else:
+                        rep.violation("R9-no-stale-element", key, facts.loc(f, x),
+                                      "streams_.%s() destroys stream objects while `%s` may still point at one of them and is not reset here: "
+                                      "the next fragment with the same key is added to a freed IPv4Stream (use after free)" % (x["cname"], F))
 
 
 def r7(db, rep):
